@@ -51,7 +51,8 @@ def make_run(cfg):
         if cfg.get("watch") == "pool":
             from Pyro5 import svr_threads
             watch = S.watch_functions(svr_threads.Worker.run, svr_threads.Worker.process, svr_threads.Pool.process, svr_threads.Pool.notify_done)
-        w = SchedWorld(chooser, servertype=cfg["server"], allow_ticks=False, max_idle_wakes=30, watch=watch, COMMTIMEOUT=timeout, THREADPOOL_SIZE=4, THREADPOOL_SIZE_MIN=1)
+        w = SchedWorld(chooser, servertype=cfg["server"], allow_ticks=False, max_idle_wakes=30, watch=watch, COMMTIMEOUT=timeout, THREADPOOL_SIZE=4, THREADPOOL_SIZE_MIN=1,
+                       ITER_STREAM_LINGER=float(cfg.get("linger", 30)))
         violations = []
         reg = {"instances": [], "resources": []}
         targets.ResTarget.registry = reg
@@ -64,6 +65,7 @@ def make_run(cfg):
             a_done = S.CoopEvent()
             b_ready = S.CoopEvent()
             got = {"a": [], "b": []}
+            iters = []
 
             def client_a():
                 try:
@@ -90,6 +92,10 @@ def make_run(cfg):
                         got["a"].append(p.track("A", cfg["tracked"]))
                     for _ in range(cfg["untracked"]):
                         got["a"].append(p.untrack_last("A"))
+                    for si in range(cfg.get("streams", 0)):
+                        it = p.gen(3)          # an item stream that this connection leaves unfinished
+                        iters.append(it)
+                        got["a"].append(("stream-item", next(it)))
                     sock = p._pyroConnection.sock
                     if ending == "release":
                         p._pyroRelease()
@@ -201,7 +207,11 @@ def make_run(cfg):
                 raise HarnessError("C13 ended with %s" % outcome)
             for name, x in w.sch.errors:
                 V("uncaught-in-thread|%s|%s" % ("worker" if name.startswith("Pyro-Worker") else name.split("-")[0], type(x).__name__), "%r" % x)
+            for it in iters:
+                it.proxy = None      # no close_stream traffic from the harness' own garbage collection
             if outcome == "quiescent":
+                if cfg.get("streams") and cfg.get("linger", 30) == 0 and d.streaming_responses:
+                    V("stream-of-ended-connection-kept|%s|%s" % (cfg["server"], ecls), "linger is 0 and the connection is gone, but the stream table still holds %d stream(s)" % len(d.streaming_responses))
                 gc.collect()
                 by_label = {}
                 for data, conn in d.handshaken:
@@ -275,6 +285,13 @@ def configs(quick):
         out.append({"server": server, "ending": "release", "tracked": 1, "untracked": 0, "other": True, "hook_raises": True, "p": 1, "r": 1, "horizon": 4000})
         for ending in ("release", "reset@40", "security"):
             out.append({"server": server, "ending": ending, "tracked": 1, "untracked": 0, "other": True, "init_tracks": True, "p": 1, "r": 1, "horizon": 4000})
+    # connections that own unfinished item streams when they end, with and without lingering
+    for server in ("multiplex", "thread"):
+        for ending in (("release", "reset@40") if quick else ("release", "reset@40", "abrupt@41", "security", "malformed")):
+            for streams in (1, 2):
+                for linger in (0, 30):
+                    out.append({"server": server, "ending": ending, "tracked": 1, "untracked": 0, "other": True, "streams": streams, "linger": linger, "p": 1 if (streams == 1 or not quick) else 0,
+                                "r": 1, "horizon": 4000})
     for ending in (("handshake-then-close", "reset@40") if quick else ("handshake-then-close", "reset@40", "release", "malformed")):
         out.append({"server": "thread", "ending": ending, "tracked": 0, "untracked": 0, "other": True, "order": "a-first", "watch": "pool", "p": 1, "r": 1 if quick else 2, "horizon": 6000})
     return out
@@ -287,7 +304,7 @@ def run(ctx):
         stats,
         rule="connection A (session-mode class, 0-2 resources tracked, 0-2 untracked again) ends by %d ways: orderly release, SecurityError, malformed request, close before / right "
              "after the handshake, abrupt close and reset at byte offsets {6,39,40,41,len-1} of a request, server-side timeout on a partial message and on an idle peer; "
-             "with and without a second connection B holding its own resource throughout; both server types; all interleavings within the per-config budget (one preemption, "
+             "with and without a second connection B holding its own resource throughout; also with 1-2 unfinished item streams owned by A, ITER_STREAM_LINGER {0, 30}; both server types; all interleavings within the per-config budget (one preemption, "
              "1-2 reorderings for the representative configurations); oracle at quiescence: disconnect hook count per handshaken connection = 1, every tracked resource closed "
              "exactly once and untracked ones never, session instances dead, server-side sockets closed, worker / selector slots released, B undisturbed and its resource "
              "still open while it is connected; distinct = observation vectors" % len(endings(ctx.quick)),
